@@ -212,13 +212,17 @@ def _finish_violation(prop, world, v, known, spec, root, ctx, minimise=True):
     w2 = world
     if minimise and spec.get("reproduce"):
         try:
-            w2 = MIN.ddmin(world, v, spec, root, ctx)
+            if spec.get("minimise"):
+                w2 = spec["minimise"](world, v, spec, root, ctx)
+            else:
+                w2 = MIN.ddmin(world, v, spec, root, ctx)
         except Exception:
             w2 = world
-    os.makedirs(os.path.join(HERE, "replays"), exist_ok=True)
+    rdir = os.environ.get("VERIF_REPLAY_DIR") or os.path.join(HERE, "replays")
+    os.makedirs(rdir, exist_ok=True)
     name = "%s-%s-%s.json" % (prop, world["seed"], hashlib.sha1(
         (v["rule"] + v["key"]).encode("utf-8")).hexdigest()[:8])
-    path = os.path.join(HERE, "replays", name)
+    path = os.path.join(rdir, name)
     with open(path, "w") as f:
         json.dump({"property": prop, "violation": {"prop": v["prop"], "rule": v["rule"],
                                                    "key": v["key"], "detail": v.get("detail")},
@@ -370,8 +374,9 @@ def aggregate(prop, spec, tier, seed, results, harness_errors, wall, nworkers):
     evidence = {"property_id": prop, "tier": tier, "seed": seed, "level": level,
                 "coverage": coverage, "assumptions": spec["assumptions"],
                 "wall_s": round(wall, 2), "violations": len(new)}
-    os.makedirs(os.path.join(HERE, "evidence"), exist_ok=True)
-    with open(os.path.join(HERE, "evidence", "%s.json" % prop), "w") as f:
+    edir = os.environ.get("VERIF_EVIDENCE_DIR") or os.path.join(HERE, "evidence")
+    os.makedirs(edir, exist_ok=True)
+    with open(os.path.join(edir, "%s.json" % prop), "w") as f:
         json.dump(evidence, f, indent=1, sort_keys=True, default=repr)
     print("check %s tier=%s seed=%d: %d runs (%d worlds) in %.1fs, %d distinct signatures (%d non-trivial), "
           "%d violation(s), %d known-finding hit(s)" % (prop, tier, seed, runs, worlds, wall, len(sigs),
